@@ -814,7 +814,9 @@ Section HexFloats.
         - replace (in_set [45; 43]%N c) with true by (clear - Hsg; cbn [in_set existsb] in *; lia). now rewrite Hi. }
       now rewrite Hok.
     - unfold expo. cbn [nonempty negb]. now rewrite !andb_false_r.
-    - unfold const. rewrite (strip_hex_const _ xc (hi ++ frac)); [clear - Hx; unfold is_xX in Hx; destruct (N.eqb_spec xc 120) as [->|]; [reflexivity|]; replace xc with 88%N by lia; reflexivity|reflexivity|clear - Hx; unfold is_xX in Hx; destruct (N.eqb_spec xc 120) as [->|]; [reflexivity|]; replace xc with 88%N by lia; reflexivity|].
+    - unfold const.
+      assert (Hxc : xc = 120%N \/ xc = 88%N) by (clear - Hx; unfold is_xX in Hx; lia).
+      rewrite (strip_hex_const _ xc (hi ++ frac)); [destruct Hxc as [E|E]; rewrite E; reflexivity|reflexivity|destruct Hxc as [E|E]; rewrite E; reflexivity|].
       apply forallb_forall. intros y Hy. apply in_app_or in Hy as [Hy|Hy].
       + rewrite forallb_forall in Hhi. specialize (Hhi y Hy). clear - Hhi. unfold is_hex, is_dec in Hhi.
         change (hexadecimal_digits ++ s ".") with (s "0123456789abcdefABCDEF."). cbn [chr_in existsb s List.map list_ascii_of_string N_of_ascii N_of_digits]. lia.
@@ -832,6 +834,59 @@ Section HexFloats.
       assert (H4 : forallb okc (d0 :: ed) = true) by now apply okc_digits.
       assert (H5 : forallb okc hx = true) by (apply okc_alnums, forallb_forall; intros y Hy; rewrite forallb_forall in Hhx; now apply hex_alnum, Hhx).
       assert (H6 : okc p = true) by (apply alnum_okc; clear - Hp; unfold is_pP in Hp; unfold alnum, ascii_alpha, ascii_digit; lia).
-      cbn [forallb] in H4. rewrite (alnum_okc xc Hxa), H1, H2, H3, H4, H5, H6, (okc_alnums rem Hra). reflexivity.
+      cbn [forallb] in H4. apply andb_true_iff in H4 as [H4a H4b].
+      repeat (rewrite ?forallb_app; cbn [forallb app]).
+      rewrite ?(alnum_okc xc Hxa), ?H1, ?H2, ?H3, ?H4a, ?H4b, ?H5, ?H6, ?(okc_alnums rem Hra). reflexivity.
   Qed.
 End HexFloats.
+
+(* ================================================================== non-vacuity: instances of the unbounded theorems *)
+Example accept_float_instances :
+  lex_one_ok (s "CONSTANT") (s "3.14159e-10L") (s ";") = true /\ lex_one_ok (s "CONSTANT") (s ".5f") (s ")") = true /\
+  lex_one_ok (s "CONSTANT") (s "5.") (s " ") = true /\ lex_one_ok (s "CONSTANT") (s "1e10") (s "+1") = true.
+Proof.
+  split; [|split; [|split]]; apply lex_one_ok_of_u.
+  - refine (accept_float_fractional nouni nouni (s "3") (s "14159") (s "e-10") (s "L") (s ";") eq_refl eq_refl (or_introl _) _ eq_refl eq_refl).
+    + discriminate.
+    + apply (OE_some [101; 69]%N 101%N (s "-") (s "10")); try reflexivity. discriminate.
+  - refine (accept_float_fractional nouni nouni [] (s "5") [] (s "f") (s ")") eq_refl eq_refl (or_intror _) (OE_none _) eq_refl eq_refl). discriminate.
+  - refine (accept_float_fractional nouni nouni (s "5") [] [] [] (s " ") eq_refl eq_refl (or_introl _) (OE_none _) eq_refl eq_refl). discriminate.
+  - refine (accept_float_exponent nouni nouni (s "1") 101%N [] (s "10") [] (s "+1") eq_refl _ eq_refl eq_refl eq_refl _ eq_refl eq_refl); discriminate.
+Qed.
+
+Example accept_literal_instances :
+  (* the string a, escape t, b, escaped double quote, c, escaped backslash; the wide character constant newline escape;
+     the empty u8 string; the character constant hexadecimal escape 41; a string with percent and colon *)
+  lex_one_ok (s "STRING") ([34; 97; 92; 116; 98; 92; 34; 99; 92; 92; 34]%N) (s ";") = true /\
+  lex_one_ok (s "CHAR_CONST") ([76; 39; 92; 110; 39]%N) (s ")") = true /\
+  lex_one_ok (s "STRING") ([117; 56; 34; 34]%N) (s ",") = true /\
+  lex_one_ok (s "CHAR_CONST") ([39; 92; 120; 52; 49; 39]%N) [] = true /\
+  lex_one_ok (s "STRING") ([34]%N ++ s "%d: 50%!" ++ [34]%N) (s ")") = true.
+Proof.
+  split; [|split; [|split; [|split]]]; apply lex_one_ok_of_u.
+  - exact (accept_string nouni nouni [] [SPlain 97; SEsc 116; SPlain 98; SEsc 34; SPlain 99; SEsc 92]%N (s ";") (or_introl eq_refl) eq_refl).
+  - exact (accept_char nouni nouni [76%N] (SEsc 110%N) (s ")") (or_intror (or_introl eq_refl)) eq_refl).
+  - exact (accept_string nouni nouni [117; 56]%N [] (s ",") (or_intror (or_intror (or_intror (or_intror eq_refl)))) eq_refl).
+  - exact (accept_char nouni nouni [] (SHex (s "41")) [] (or_introl eq_refl) eq_refl).
+  - exact (accept_string nouni nouni [] (List.map SPlain (s "%d: 50%!")) (s ")") (or_introl eq_refl) eq_refl).
+Qed.
+
+Example accept_hexfloat_instances :
+  lex_one_ok (s "CONSTANT") (s "0x1.8p3") (s ";") = true /\ lex_one_ok (s "CONSTANT") (s "0XAp-2L") (s ";") = true /\
+  (* the suffix f is read as an exponent digit, still one clean token; dl is accepted although the recorded shape flags it *)
+  lex_one_ok (s "CONSTANT") (s "0x1p3f") (s ";") = true /\ lex_one_ok (s "CONSTANT") (s "0x1p3dl") (s ";") = true /\
+  hexfloat_sfx_bad (s "dl") = true /\ shape_hexfloat_hex_suffix (s "0x1p3dl") = true /\
+  (* the findings themselves are outside the hypotheses *)
+  hexfloat_sfx_bad (s "fi") = true /\ str_in (hexfloat_sfx_rem (s "fi")) float_suffixes = false /\
+  shape_hexfloat_empty_part (s "0x1.p3") = true /\ shape_hexfloat_empty_part (s "0x.8p1") = true.
+Proof.
+  split; [apply lex_one_ok_of_u;
+          refine (accept_hexfloat_partial nouni nouni 120%N (s "1") (s ".8") 112%N [] 51%N [] [] (s ";") eq_refl eq_refl _ (or_intror (ex_intro _ (s "8") (conj eq_refl (conj eq_refl _)))) eq_refl eq_refl eq_refl eq_refl eq_refl eq_refl); discriminate|].
+  split; [apply lex_one_ok_of_u;
+          refine (accept_hexfloat_partial nouni nouni 88%N (s "A") [] 112%N (s "-") 50%N [] (s "L") (s ";") eq_refl eq_refl _ (or_introl eq_refl) eq_refl eq_refl eq_refl eq_refl eq_refl eq_refl); discriminate|].
+  split; [apply lex_one_ok_of_u;
+          refine (accept_hexfloat_partial nouni nouni 120%N (s "1") [] 112%N [] 51%N [] (s "f") (s ";") eq_refl eq_refl _ (or_introl eq_refl) eq_refl eq_refl eq_refl eq_refl eq_refl eq_refl); discriminate|].
+  split; [apply lex_one_ok_of_u;
+          refine (accept_hexfloat_partial nouni nouni 120%N (s "1") [] 112%N [] 51%N [] (s "dl") (s ";") eq_refl eq_refl _ (or_introl eq_refl) eq_refl eq_refl eq_refl eq_refl eq_refl eq_refl); discriminate|].
+  vm_compute. repeat split; reflexivity.
+Qed.
